@@ -7,30 +7,34 @@ import json, os, subprocess, sys, time
 def sh(cmd, **kw):
     return subprocess.run(cmd, shell=True, stdout=subprocess.PIPE, stderr=subprocess.STDOUT, text=True, **kw)
 
+REPO = os.environ.get("VERIF_REPO", "/repo")
+VERIF = os.path.dirname(os.path.dirname(os.path.abspath(__file__)))
+
+
 def main():
     d = sys.argv[1].rstrip("/")
     props = sys.argv[2:]
     meta = json.load(open(os.path.join(d, "meta.json"))) if os.path.exists(os.path.join(d, "meta.json")) else {}
     if not props:
         props = [meta.get("property", "C01")]
-    st = sh("git -C /repo status --porcelain --untracked-files=no")
+    st = sh("git -C %s status --porcelain --untracked-files=no" % REPO)
     if st.stdout.strip():
-        print("refusing: /repo has uncommitted changes:\n" + st.stdout); return 2
-    r = sh("git -C /repo apply %s/patch.diff" % d)
+        print("refusing: the repository has uncommitted changes:\n" + st.stdout); return 2
+    r = sh("git -C %s apply %s/patch.diff" % (REPO, d))
     if r.returncode != 0:
         print("patch does not apply:\n" + r.stdout); return 2
     results = {}
     try:
         for p in props:
             t0 = time.time()
-            c = sh("cd /verif && bin/check %s --tier quick" % p)
+            c = sh("cd %s && bin/check %s --tier quick" % (VERIF, p))
             viol = [l for l in c.stdout.splitlines() if l.startswith("VIOLATION") or l.startswith("  what:") or l.startswith("TOOL-ERROR")]
             results[p] = {"exit": c.returncode, "wall": round(time.time() - t0, 1), "lines": viol[:6]}
             print("%s -> exit %d (%.0fs)" % (p, c.returncode, time.time() - t0))
             for l in viol[:4]:
                 print("   " + l[:300])
     finally:
-        sh("git -C /repo checkout -- .")
+        sh("git -C %s checkout -- ." % REPO)
     out = {"mutant": d, "meta": meta, "results": results}
     json.dump(out, open(os.path.join(d, "check_results.json"), "w"), indent=1)
     return 0
